@@ -240,7 +240,7 @@ func (b *Bucket) Put(k, v []byte) error {
 func (b *Bucket) Delete(k []byte) error {
 	return b.write("Delete", func() error { return b.in.Delete(k) })
 }
-func (b *Bucket) Get(k []byte) ([]byte, error)               { return b.in.Get(k) }
-func (b *Bucket) Clear() error                               { return b.write("Clear", func() error { return b.in.Clear() }) }
+func (b *Bucket) Get(k []byte) ([]byte, error)              { return b.in.Get(k) }
+func (b *Bucket) Clear() error                              { return b.write("Clear", func() error { return b.in.Clear() }) }
 func (b *Bucket) GetByPrefix(p []byte) ([]*db.Entry, error) { return b.in.GetByPrefix(p) }
-func (b *Bucket) GetBucketMeta() db.BucketMeta               { return b.in.GetBucketMeta() }
+func (b *Bucket) GetBucketMeta() db.BucketMeta              { return b.in.GetBucketMeta() }
